@@ -177,10 +177,11 @@ def aggNums (args : List (Res F)) : Except Err (List F) :=
       | .scalar (.text s) => (match (Num.ofText s : Option F) with | some x => .ok (acc ++ [x]) | none => .error .value)
       | .scalar .blank => .ok acc
       | .scalar (.err e) => .error e
+      -- inside an array or a reference only numbers count: logicals, blanks and every text — also text that
+      -- looks like a number — are ignored
       | .arr a => .ok (acc ++ a.flatten.filterMap fun v =>
           match v with
           | .num x => some x
-          | .text s => Num.ofText s
           | _ => none)) []
 
 def fsum (l : List F) : F := l.foldl Num.add Num.zero
@@ -245,7 +246,6 @@ def countFn (name : String) (args : List (Res F)) : Option (Val F) :=
       | .scalar _ => []
       | .arr a => a.flatten.filterMap fun v => match v with
           | .num _ => some ()
-          | .text s => if (Num.ofText s : Option F).isSome then some () else none
           | _ => none).length)))
   | "COUNTA" => some (.num (natToF ((flatVals args).filter fun v => match v with | .blank => false | _ => true).length))
   | "COUNTBLANK" => some (.num (natToF ((flatVals args).filter fun v => match v with | .blank => true | .text "" => true | _ => false).length))
